@@ -105,7 +105,7 @@ class Parser:
         (b"hash_comment", rb"#.*$"),
         (b"bracket_comment", rb"/\*[\s\S]*?\*/"),
         (b"multiline", rb"text:[\s\S]*?[\r\n]\.(?=\r?$)"),
-        (b"string", rb'"([^"\\]|\\.)*"'),
+        (b"string", rb'"([^"\\]|\\[^\r\n])*"'),
         (b"identifier", rb"[a-zA-Z_][\w]*"),
         (b"tag", rb":[a-zA-Z_][\w]*"),
         (b"number", rb"[0-9]+[KMGkmg]?"),
